@@ -108,7 +108,7 @@ def check(run):
         wb, R, name, outs = bookgen.range_template(rnd)
         d = wb.to_dict(explicit_blanks=wb.explicit)
         case = {'workbook': {k_: (str(v) if isinstance(v, bookgen.Err) else v) for k_, v in d.items()}, 'stream': 'range-template'}
-        how = rnd.choice((['range', 'sub-range', 'name'] if name else ['range', 'sub-range']) if wb.explicit else (['range', 'name'] if name else ['range']))
+        how = rnd.choice((['range', 'sub-range', 'name'] if name else ['range', 'sub-range']) if (wb.explicit and not wb.has_array) else (['range', 'name'] if name else ['range']))
         rr = R if how != 'sub-range' else (0, 2, 3, 1, 1)
         key = wb.name_key(name) if how == 'name' else '%s!%s' % (wb.sheet_id(0), wb.ref_text(rr))
         in_keys = [key] + ([wb.key(0, 1, 4)] if rnd.random() < 0.5 else [])
